@@ -388,8 +388,25 @@ def gen(seed, charsigned, n, nargs=4, prefix='f'):
 #   `return e;` (ret conv(e,RET))               exprassign to the return type
 #   `for (init; c; step) body`  (for INIT COND STEP BODY), a missing clause is (skip) / (none)
 STMT_KINDS = ['decl', 'decl-init', 'set', 'opset', 'inc', 'dec', 'expr', 'ret', 'block', 'if', 'ifelse', 'while',
-              'do', 'for', 'break', 'continue', 'skip']
+              'do', 'for', 'break', 'continue', 'skip', 'switch', 'case', 'default']
 OPSET = ['mul', 'div', 'mod', 'add', 'sub', 'shl', 'shr', 'and', 'or', 'xor']
+# which jump statements may be generated: 0 none, 1 in a loop, 2 in a switch outside any loop (the `continue` of a
+# switch inside a loop belongs to the loop), 3 in a switch inside a loop
+JUMPS = {1: ['break', 'continue'], 2: ['break'], 3: ['break', 'continue']}
+CASEVALS = [0, 1, 2, 3, 4, 5, 7, 8, 10, 31, 64, 100, 127, 128, 255, 256, 1000, 32767, 65535, 65536, 2147483647, 2147483648,
+            4294967295, 4294967296, 9223372036854775807, -1, -2, -3, -5, -128, -32768, -2147483648]
+
+
+def casekey(t, u):
+    """qbe.c switchcase: the constant converted to the promoted controlling type, as a 64-bit number"""
+    size = SIZE[t]
+    if size < 8:
+        u &= (1 << (size * 8)) - 1
+        if signed(t):
+            m = 1 << (size * 8 - 1)
+            u = ((u ^ m) - m) & M64
+    return u & M64
+
 CNT_TYS = ['i', 'u', 'l', 'ul', 's', 'us', 'uc', 'sc', 'c', 'll', 'ull']
 
 
@@ -511,7 +528,7 @@ class Gen2:
             c, t = self.ret(scope)
             return c, t, True
         if x < 0.84 and inloop:
-            k = r.choice(['break', 'continue'])
+            k = r.choice(JUMPS[inloop])
             self.count(k)
             return k + ';', '(%s)' % k, True
         av = self.assignable(scope)
@@ -659,6 +676,60 @@ class Gen2:
             out.append(('for (;;) %s' % bc, '(for (skip) (none) (skip) %s)' % bt))
         return out
 
+    def switch(self, scope, depth, inloop):
+        """switch (e) { case K: { ... } [break;] ... [default: ...] }"""
+        r = self.rng
+        src, e = self.expr(scope, r.randrange(0, 2))
+        pt = promote(ty(e))
+        e = conv(e, pt)                                   # exprpromote
+        self.count('switch')
+        ngroups = r.randrange(1, 5)
+        vals, keys = [], set()
+        for v in r.sample(CASEVALS, len(CASEVALS)):
+            k = casekey(pt, v & M64)
+            if k not in keys:
+                keys.add(k)
+                vals.append(v)
+        saved = set(self.init)
+        cparts, tparts = [], []
+        dpos = r.randrange(0, ngroups + 2)                # position of `default` (beyond the groups: none)
+        jf = 3 if inloop in (1, 3) else 2
+        for g in range(ngroups):
+            nl = 1 if r.random() < 0.75 else 2
+            for _ in range(nl):
+                if g == dpos and 'default:' not in cparts:
+                    cparts.append('default:')
+                    tparts.append('(default)')
+                    self.count('default')
+                v = vals.pop()
+                cparts.append('case %d:' % v)
+                tparts.append('(case %d)' % (v & M64))
+                self.count('case')
+            self.init = set(saved)
+            if r.random() < 0.85:
+                bc, bt, term = self.body(scope, depth - 1, jf, 2)
+                cparts.append(bc)
+                tparts.append(bt)
+            else:
+                term = False
+                cparts.append(';')
+                tparts.append('(skip)')
+            if not term and r.random() < 0.6:
+                cparts.append('break;')
+                tparts.append('(break)')
+                self.count('break')
+        if dpos >= ngroups and dpos == ngroups:
+            self.init = set(saved)
+            cparts.append('default:')
+            tparts.append('(default)')
+            self.count('default')
+            bc, bt, term = self.body(scope, depth - 1, jf, 2)
+            cparts.append(bc)
+            tparts.append(bt)
+        self.init = saved
+        return [('switch (%s) { %s }' % (ctext(src), ' '.join(cparts)),
+                 '(switch %s (block %s))' % (sx(e), ' '.join(tparts)))]
+
     def stmts(self, scope, depth, inloop, n):
         """n statements appended to the current scope; stops after a jump statement"""
         r = self.rng
@@ -680,8 +751,10 @@ class Gen2:
                     self.count('if')
                     self.init = saved
                     items.append(('if (%s) %s' % (ctext(src), ac), '(if %s %s)' % (sx(e), at)))
-            elif depth > 0 and self.level == 'C' and x < 0.45:
+            elif depth > 0 and self.level == 'C' and x < 0.40:
                 items += self.loop(scope, depth)
+            elif depth > 0 and self.level == 'C' and x < 0.47:
+                items += self.switch(scope, depth, inloop)
             elif depth > 0 and x < 0.52:
                 self.count('block')
                 c, t, term = self.body(scope, depth - 1, inloop, 3)
@@ -690,7 +763,7 @@ class Gen2:
                     return items, True
             elif x < 0.56 and (inloop or r.random() < 0.3):
                 if inloop and r.random() < 0.6:
-                    k = r.choice(['break', 'continue'])
+                    k = r.choice(JUMPS[inloop])
                     self.count(k)
                     items.append((k + ';', '(%s)' % k))
                 else:
